@@ -1,8 +1,8 @@
 (* C03 - rendering a score yields exactly its sounding notes at the right times.
    Statements only; proofs in Proofs/RenderProofs.v.  Time is in integer ticks of arbitrary size
    (every rational score is such a score after multiplying by the LCM of its denominators). *)
-From ML Require Import Model.Types gen.Tables Model.Pitch Model.Rel Model.Render Spec.RenderSpec Proofs.RenderProofs Proofs.EventsProofs.
-From Coq Require Import QArith.
+From ML Require Import Model.Types gen.Tables Model.Pitch Model.Rel Model.Render Spec.RenderSpec Proofs.RenderProofs Proofs.EventsProofs Proofs.EventsGlobal.
+From Coq Require Import QArith Permutation.
 Open Scope Z_scope.
 Open Scope list_scope.
 
@@ -45,6 +45,22 @@ Theorem C03_events_in_seconds : forall tpq tempo s idx track rows,
       (filter (fun e => negb (e_sil e)) (match nlook idx (fold_left (ev_step true tpq tempo) rows []) with Some x => x | None => [] end))
       (map (ev_of_snote tpq tempo idx) sl).
 Proof. exact events_are_sounding_in_seconds. Qed.
+
+(* to_events as a whole (all parts together): the global stable sort by onset leaves each part's rows in their order, the per-track
+   dictionaries do not interfere, and the final sort only orders the output - so, for every part, the events of its track in the
+   OUTPUT of matrix_to_events are, up to that output order, its sounding notes in seconds.  Hypotheses: `all` contains the rows of
+   part idx as they are (get_notes concatenates the parts) and they are in time order (C03_rows_are_timeline, durations >= 0). *)
+Theorem C03_to_events_whole : forall tpq tempo s idx track rows all,
+  track_rows s idx track 0 None = Some rows -> Forall (fun r => r_track r = idx) rows ->
+  filter (fun r => Nat.eqb (r_track r) idx) all = rows -> sortedk r_off rows ->
+  exists sl l, sounding_of s track = Some sl /\
+    Permutation (filter (fun e => Nat.eqb (e_track e) idx) (matrix_to_events true tpq tempo all)) l /\
+    Forall2 (ev_equiv) l (map (ev_of_snote tpq tempo idx) sl).
+Proof. exact to_events_track. Qed.
+
+(* a sub-sequence already in order is left in order by the stable sort (what makes the theorem above go through) *)
+Theorem C03_stable_sort_keeps_tracks : forall (P : row -> bool) l, sortedk r_off (filter P l) -> filter P (sort_key r_off l) = filter P l.
+Proof. exact (sort_keeps_sorted_subsequence r_off). Qed.
 
 (* the code as it was before the repair (a continuation's length added in quarter notes to a duration in seconds) is refuted
    at tempo 120: a half note written s0 + l lasts 1 s in the repaired model, 1.5 s in the old one *)
